@@ -121,6 +121,8 @@ class C09(Check):
                         modes = ["index"] if fault.startswith("pid_") else ["centres"]
                     else:
                         modes = ["centres"]
+                    if fault == "pid_-3_i1" and source == "fits":
+                        continue  # FITS has no signed one-byte column type
                     for mode in modes:
                         out.append(dict(fault=fault, pos=pos, source=source, mode=mode))
         for fault in STRUCT_FAULTS:
@@ -139,7 +141,7 @@ class C09(Check):
         for pos in (["middle"] if q else ["first", "middle", "last"]):
             out.append(dict(fault="overwrite_valid_nan_ra", pos=pos, source="dataframe", mode="centres"))
         # the cache location runs full while patch data is written (file-size limit): refuse, never return a shortened catalog
-        for lim in (["total-1", "half"] if q else ["total-1", "total-8", "half", "record-boundary", "tiny"]):
+        for lim in (["total-1", "half", "record-boundary"] if q else ["total-1", "total-8", "half", "record-boundary", "tiny"]):
             out.append(dict(fault=f"fsize_{lim}", pos="-", source="dataframe", mode="index"))
         # fault-free controls whose last chunk holds fewer records than there are workers
         out.append(dict(fault="none", pos="short_tail", source="dataframe", mode="centres"))
@@ -402,7 +404,8 @@ class C09(Check):
             try:
                 c = Catalog(target, max_workers=1)
                 nrec = int(sum(c.get_num_records()))
-                if not (untouchable and after == before):
+                # a pre-existing catalog that the failed call left exactly as it was is "never started", not a leftover
+                if not ((untouchable and after == before) or (pre_valid_digest is not None and after == pre_valid_digest)):
                     violations.append((f"failed-creation-leaves-valid-catalog:{mode_tag}",
                                        dict(fault=fault, records=nrec, of=n, outcome=kind)))
             except Exception:
